@@ -14,8 +14,9 @@ The model mirrors the code as it is:
   without an initial value), the `_with_dict` implementations build the same tables of non-zero
   coefficients, the `_with_sparsity` implementations are the same flattened matrix–vector products;
 * `truncate_hs` has its imaginary-part error branch and zeroes entries below the threshold;
-* `Povm.matrix_with_sparsity` raises `NameError` on every call (DESIGN §5-D2);
-* `to_var_from_choi` calls the *forward* conversion `to_choi_from_hs_with_sparsity` (DESIGN §5-D3).
+* `to_var_from_choi` is `to_hs_from_choi_with_sparsity` followed by `convert_hs_to_var`
+  (repaired in /repo 15e40aa; before that it called the forward conversion, DESIGN §5-D3);
+  `Povm.matrix_with_sparsity` is the sparse form of `Povm.matrix` (repaired in da605d0, DESIGN §5-D2).
 -/
 namespace QM.C02
 
@@ -260,20 +261,14 @@ def toChoiFromVarFree [Add K] [Mul K] [Zero K] [HasConj K] {d : Nat} (B : Basis 
     (var : Vec K ((d * d) * (d * d))) : Mat K (d * d) (d * d) :=
   choiSparse B (unflat var)
 
-/-- `to_var_from_choi(…, on_para_eq_constraint=True)` AS IT IS: the body calls
-`to_choi_from_hs_with_sparsity` (the forward conversion) on the Choi matrix. -/
-def toVarFromChoiEq [Add K] [Mul K] [Zero K] [HasConj K] {d : Nat} (B : Basis K d (d * d))
+/-- `to_var_from_choi(…, on_para_eq_constraint=True)` before `truncate_hs`:
+`to_hs_from_choi_with_sparsity` (the inverse conversion), then delete row 0 and flatten. -/
+def toVarFromChoiEqRaw [Add K] [Mul K] [Zero K] [HasConj K] {d : Nat} (B : Basis K d (d * d))
     (choi : Mat K (d * d) (d * d)) : Vec K ((d * d - 1) * (d * d)) :=
-  hsToVarEq (choiSparse B choi)
+  hsToVarEq (hsOfChoiSparseRaw B choi)
 
-/-- `to_var_from_choi(…, on_para_eq_constraint=False)` AS IT IS (see `toVarFromChoiEq`). -/
-def toVarFromChoiFree [Add K] [Mul K] [Zero K] [HasConj K] {d : Nat} (B : Basis K d (d * d))
-    (choi : Mat K (d * d) (d * d)) : Vec K ((d * d) * (d * d)) :=
-  flat (choiSparse B choi)
-
-/-- what `to_var_from_choi` is documented to do (inverse conversion); used by the theorems and by
-the oracle's reference, never by the driver's `toVarFromChoi` op. -/
-def toVarFromChoiFreeIntended [Add K] [Mul K] [Zero K] [HasConj K] {d : Nat} (B : Basis K d (d * d))
+/-- `to_var_from_choi(…, on_para_eq_constraint=False)` before `truncate_hs` -/
+def toVarFromChoiFreeRaw [Add K] [Mul K] [Zero K] [HasConj K] {d : Nat} (B : Basis K d (d * d))
     (choi : Mat K (d * d) (d * d)) : Vec K ((d * d) * (d * d)) :=
   flat (hsOfChoiSparseRaw B choi)
 
@@ -283,7 +278,6 @@ end generic
 
 inductive Err
   | imagNonZero   -- truncate_hs: "some imaginary parts of entries of matrix != 0"
-  | nameError     -- Povm.matrix_with_sparsity: NameError: name 'c_sys' is not defined
   | indexError    -- list index out of range
   | emptyKraus    -- sum([]) = 0 has no .shape
   | emptyReduce   -- reduce() of empty sequence
@@ -292,7 +286,7 @@ inductive Err
 deriving Repr, DecidableEq
 
 def Err.toString : Err → String
-  | .imagNonZero => "imagNonZero" | .nameError => "nameError" | .indexError => "indexError"
+  | .imagNonZero => "imagNonZero" | .indexError => "indexError"
   | .emptyKraus => "emptyKraus" | .emptyReduce => "emptyReduce" | .notSquare => "notSquare"
   | .dimNotSquare => "dimNotSquare" | .dimMismatch => "dimMismatch" | .lenMismatch => "lenMismatch"
   | .reshape => "reshape"
@@ -311,6 +305,18 @@ def truncList (eps : Rat) (l : List CRat) : Except Err (List Rat) := l.mapM (tru
 /-- `to_hs_from_choi`: `.real` of the trace, no check -/
 def realList (l : List CRat) : List Rat := l.map (·.re)
 
+/-- row-major list of the entries (`matrix.flatten().tolist()`) -/
+def matList {α : Type} {m n : Nat} (A : Mat α m n) : List α :=
+  A.toList.flatMap fun r => r.toList
+
+/-- `to_var_from_choi` as executed: `truncate_hs` runs on the whole HS matrix (row 0 included) inside
+`to_hs_from_choi_with_sparsity`; then `convert_hs_to_var` deletes row 0 (`onEq`) and flattens.
+(`toVarFromChoiEqRaw` / `toVarFromChoiFreeRaw` are the same functions without the truncation.) -/
+def toVarFromChoi {d : Nat} (eps : Rat) (B : Basis CRat d (d * d)) (choi : Mat CRat (d * d) (d * d))
+    (onEq : Bool) : Except Err (List Rat) := do
+  let l ← truncList eps (matList (hsOfChoiSparseRaw B choi))
+  pure (if onEq then l.drop (d * d) else l)
+
 /-! ## povm.py -/
 
 /-- `Povm.matrix(index)` for an int index (loop form) -/
@@ -320,13 +326,12 @@ def povmMatrix {d n : Nat} (B : Basis CRat d n) (vecs : List (Vec CRat n)) (inde
   | none => .error .indexError
   | some v => .ok (densityLoop B v)
 
-/-- `Povm.matrix_with_sparsity(index)` AS IT IS: `vec = self.vec(index)` succeeds or raises IndexError,
-then `c_sys.basis_T_sparse` raises `NameError` (there is no name `c_sys` in scope). -/
-def povmMatrixSparse {d n : Nat} (_B : Basis CRat d n) (vecs : List (Vec CRat n)) (index : Nat) :
+/-- `Povm.matrix_with_sparsity(index)`: `vec = self.vec(index)`, then the sparse matrix–vector form -/
+def povmMatrixSparse {d n : Nat} (B : Basis CRat d n) (vecs : List (Vec CRat n)) (index : Nat) :
     Except Err (Mat CRat d d) :=
   match vecs[index]? with
   | none => .error .indexError
-  | some _ => .error .nameError
+  | some v => .ok (densitySparse B v)
 
 /-! ## Kraus (gate.py `to_kraus_matrices_from_hs`) — numpy's `eigh` and `sqrt` are parameters -/
 
@@ -400,8 +405,6 @@ def toBasis? (d n : Nat) (l : List CRat) : Option (Basis CRat d n) := do
   let ms ← (chunks (d * d) n l).mapM (toMat? d d)
   toVec? n ms
 
-def matList {α : Type} {m n : Nat} (A : Mat α m n) : List α :=
-  A.toList.flatMap fun r => r.toList
 
 def showM {m n : Nat} (A : Mat CRat m n) : String := "ok " ++ showCList (matList A)
 def showV {n : Nat} (v : Vec CRat n) : String := "ok " ++ showCList v.toList
@@ -568,12 +571,13 @@ def handle (args : List String) : Option String :=
         | none => some "err reshape"
         | some v => some (showM (toChoiFromVarFree B v))
       else none
-  | ["toVarFromChoi", d, basis, choi, onEq] => do
+  | ["toVarFromChoi", d, basis, choi, onEq, eps] => do
       let d ← parseNat? d
       let B ← toBasis? d (d * d) (← parseCList? basis)
       let c ← toMat? (d * d) (d * d) (← parseCList? choi)
-      if onEq = "1" then some (showV (toVarFromChoiEq B c))
-      else if onEq = "0" then some (showV (toVarFromChoiFree B c))
+      let eps ← parseRat? eps
+      if onEq = "1" then some (showR (toVarFromChoi eps B c true))
+      else if onEq = "0" then some (showR (toVarFromChoi eps B c false))
       else none
   | ["kraus", d, basis, hs, vals, sqrts, vecs, atol, atolSettings] => do
       let d ← parseNat? d
